@@ -424,7 +424,7 @@ def check_swt_forward(cfg, sizes, rnd):
     """real SWTForward vs pywt.swt2 (and circular-shift equivariance)"""
     from pytorch_wavelets.dwt.transform2d import SWTForward
     w = _named(cfg['wave']) if cfg.get('wave') else _wave(sizes.get('Lc2', sizes.get('L2', 2)))
-    J = min(4, max(_sz(sizes, 'J', 2, 1, 3), int(cfg.get('minJ', 1))))
+    J = min(6, max(_sz(sizes, 'J', 2, 1, 3), int(cfg.get('minJ', 1))))
     mh, mw = _sz(sizes, 'mh', 2, 1, 6), _sz(sizes, 'mw', 3, 1, 6)
     H, W = mh * 2 ** J, mw * 2 ** J
     rs = rtc.RState(rnd.randint(0, 10**6))
